@@ -95,7 +95,7 @@ func c25Gen(r *core.Rand, tier string) any {
 	for _, k := range []string{"outage", "stepdown", "isolate", "crash", "snapshot", "load"} {
 		en[k] = !sc.NoFault && r.Bool(0.6)
 	}
-	g := newCdcGenState(r)
+	g := cdcNewGenState(r)
 	if !sc.NoFault && r.Bool(0.25) {
 		// directed stratum: a follower falls behind while the endpoint is down, is
 		// caught up by a snapshot install after the leader truncated its log, and
@@ -173,7 +173,9 @@ func c25Gen(r *core.Rand, tier string) any {
 			add(c25Op{K: "run", Ms: r.Range(500, 3000)})
 		}
 		reqs(1, 4)
-		add(c25Op{K: "run", Ms: r.Range(200, 2500)})
+		if r.Bool(0.5) { // otherwise the outage begins before the next high-watermark broadcast
+			add(c25Op{K: "run", Ms: r.Range(200, 2500)})
+		}
 		add(c25Op{K: "outage", Mode: []string{"reject", "reject", "acklost"}[r.Intn(3)]})
 		reqs(1, 5)
 		change()
@@ -276,7 +278,7 @@ type c25Delivery struct {
 	Tenure int  // which leadership period of that instance
 	Acked  bool // the service was told the delivery succeeded
 	Step   int
-	Msgs   []dMsg
+	Msgs   []cdcDMsg
 }
 
 type c25Endpoint struct {
@@ -311,10 +313,10 @@ func (k *c25Sink) Write(p []byte) (int, error) {
 		ep.rejected++
 		return 0, errors.New("endpoint unreachable")
 	}
-	_, msgs, err := decodeEnvelope(p)
+	_, msgs, err := cdcDecodeEnvelope(p)
 	if err != nil {
 		// the endpoint got something that is not a CDC envelope: keep it visible
-		msgs = []dMsg{{Index: ^uint64(0), Events: []xEvent{{Op: "UNPARSABLE", Err: err.Error()}}}}
+		msgs = []cdcDMsg{{Index: ^uint64(0), Events: []cdcXEvent{{Op: "UNPARSABLE", Err: err.Error()}}}}
 	}
 	d := &c25Delivery{Seq: len(ep.recs), Node: k.node, Inst: k.inst, Tenure: tenure, Acked: ep.mode == "", Step: ep.step(), Msgs: msgs}
 	ep.recs = append(ep.recs, d)
@@ -327,7 +329,7 @@ func (k *c25Sink) Write(p []byte) (int, error) {
 func (k *c25Sink) Close() error   { return nil }
 func (k *c25Sink) String() string { return "recording-endpoint" }
 
-func droppedHandoff() int64 {
+func c25DroppedHandoff() int64 {
 	if m, ok := expvar.Get("db").(*expvar.Map); ok {
 		if v, ok := m.Get("dropped_cdc_events").(*expvar.Int); ok {
 			return v.Value()
@@ -336,7 +338,7 @@ func droppedHandoff() int64 {
 	return 0
 }
 
-func storeStat(name string) int64 {
+func c25StoreStat(name string) int64 {
 	if m, ok := expvar.Get("store").(*expvar.Map); ok {
 		if v, ok := m.Get(name).(*expvar.Int); ok {
 			return v.Value()
@@ -386,8 +388,8 @@ func c25Run(c *core.Ctx, raw json.RawMessage) {
 		amu.Unlock()
 	}, nil, nil)
 	defer verifx.ResetHooks()
-	dropped0 := droppedHandoff()
-	restores0 := storeStat("num_restores")
+	dropped0 := c25DroppedHandoff()
+	restores0 := c25StoreStat("num_restores")
 
 	ep := &c25Endpoint{step: func() int { return s.StepN }}
 	var stops []chan struct{}
@@ -705,7 +707,7 @@ func c25Run(c *core.Ctx, raw json.RawMessage) {
 		c.Discard("cluster-did-not-settle") // availability is other properties' business
 		return
 	}
-	if d := droppedHandoff() - dropped0; d > 0 {
+	if d := c25DroppedHandoff() - dropped0; d > 0 {
 		c.Probe("handoff_channel_full")
 		c.Discard("handoff-channel-full") // the documented drop, excluded by the property
 		return
@@ -728,7 +730,7 @@ func c25Run(c *core.Ctx, raw json.RawMessage) {
 	sort.Slice(idxs, func(i, j int) bool { return idxs[i] < idxs[j] })
 
 	// ---- shadow model: row changes per committed log index
-	sh, err := newCdcShadow(c.Dir, sc.Filter, sc.IDsOnly)
+	sh, err := cdcNewShadow(c.Dir, sc.Filter, sc.IDsOnly)
 	if err != nil {
 		panic(err)
 	}
@@ -737,7 +739,7 @@ func c25Run(c *core.Ctx, raw json.RawMessage) {
 		Index  uint64
 		Commit int // 1-based position among the commits of this entry that changed rows
 		Failed int // statements of the same non-transactional request that failed before this commit
-		Events []xEvent
+		Events []cdcXEvent
 		marked bool
 	}
 	expected := map[uint64][]*xGroup{}
@@ -801,7 +803,7 @@ func c25Run(c *core.Ctx, raw json.RawMessage) {
 						if pass == 0 && g.marked {
 							continue
 						}
-						if end, ok := subseqEnd(g.Events, rest); ok {
+						if end, ok := c25SubseqEnd(g.Events, rest); ok {
 							g.marked = true
 							hit = true
 							rest = rest[end:]
@@ -882,7 +884,7 @@ func c25Run(c *core.Ctx, raw json.RawMessage) {
 		}
 	}
 	c.ProbeN("entries_some_node_got_only_by_snapshot", nGap)
-	c.ProbeN("snapshot_restores", int(storeStat("num_restores")-restores0))
+	c.ProbeN("snapshot_restores", int(c25StoreStat("num_restores")-restores0))
 	c.ProbeN("deliveries_acked", nAck)
 	c.ProbeN("deliveries_ack_lost", nLost)
 	c.ProbeN("deliveries_rejected", rejected)
@@ -911,7 +913,7 @@ func c25Run(c *core.Ctx, raw json.RawMessage) {
 		for _, d := range recs {
 			for _, m := range d.Msgs {
 				if m.Index != g.Index {
-					if _, ok := subseqEnd(g.Events, m.Events); ok && len(m.Events) > 0 {
+					if _, ok := c25SubseqEnd(g.Events, m.Events); ok && len(m.Events) > 0 {
 						found = append(found, fmt.Sprintf("delivery %d (from %s) under index %d", d.Seq, d.Node, m.Index))
 					}
 				}
@@ -920,7 +922,7 @@ func c25Run(c *core.Ctx, raw json.RawMessage) {
 		return strings.Join(found, ", ")
 	}
 	type finding struct{ class, detail string }
-	var first, laterF []finding
+	var first, gapF, laterF []finding
 	for _, k := range order {
 		for _, g := range expected[k] {
 			if g.marked {
@@ -937,21 +939,24 @@ func c25Run(c *core.Ctx, raw json.RawMessage) {
 			f := finding{}
 			switch {
 			case elsewhere != "" && !later:
-				f = finding{"mislabelled-index", fmt.Sprintf("log index %d changed rows [%s]; they were never delivered under index %d, only as %s", k, identsOf(g.Events), k, elsewhere)}
+				f = finding{"mislabelled-index", fmt.Sprintf("log index %d changed rows [%s]; they were never delivered under index %d, only as %s", k, cdcIdentsOf(g.Events), k, elsewhere)}
 			case elsewhere != "":
-				f = finding{"mislabelled-later-commit", fmt.Sprintf("log index %d, %s, changed rows [%s]; they were never delivered under index %d, only as %s", k, pos, identsOf(g.Events), k, elsewhere)}
+				f = finding{"mislabelled-later-commit", fmt.Sprintf("log index %d, %s, changed rows [%s]; they were never delivered under index %d, only as %s", k, pos, cdcIdentsOf(g.Events), k, elsewhere)}
 			case !later && len(appliedBy[k]) < 3:
 				// some node never executed this entry (it received the result inside a
 				// snapshot), so its CDC service never saw the change
-				f = finding{"lost-change-not-captured-everywhere", fmt.Sprintf("log index %d changed rows [%s]; no delivery contains them (waited %v simulated after the last fault); only %s applied this entry from the log, the other node(s) received it inside a snapshot", k, identsOf(g.Events), 120*time.Second, c25Nodes(appliedBy[k]))}
+				f = finding{"lost-change-not-captured-everywhere", fmt.Sprintf("log index %d changed rows [%s]; no delivery contains them (waited %v simulated after the last fault); only %s applied this entry from the log, the other node(s) received it inside a snapshot", k, cdcIdentsOf(g.Events), 120*time.Second, c25Nodes(appliedBy[k]))}
 			case !later:
-				f = finding{"lost-change", fmt.Sprintf("log index %d changed rows [%s]; no delivery contains them (waited %v simulated after the last fault; %d deliveries in total, indices seen: %s)", k, identsOf(g.Events), 120*time.Second, len(recs), c25Indices(seenIdx))}
+				f = finding{"lost-change", fmt.Sprintf("log index %d changed rows [%s]; no delivery contains them (waited %v simulated after the last fault; %d deliveries in total, indices seen: %s)", k, cdcIdentsOf(g.Events), 120*time.Second, len(recs), c25Indices(seenIdx))}
 			default:
-				f = finding{"lost-later-commit", fmt.Sprintf("log index %d, %s, changed rows [%s]; no delivery contains them (%d deliveries, indices seen: %s)", k, pos, identsOf(g.Events), len(recs), c25Indices(seenIdx))}
+				f = finding{"lost-later-commit", fmt.Sprintf("log index %d, %s, changed rows [%s]; no delivery contains them (%d deliveries, indices seen: %s)", k, pos, cdcIdentsOf(g.Events), len(recs), c25Indices(seenIdx))}
 			}
-			if !later {
+			switch {
+			case f.class == "lost-change-not-captured-everywhere":
+				gapF = append(gapF, f)
+			case !later:
 				first = append(first, f)
-			} else {
+			default:
 				laterF = append(laterF, f)
 			}
 		}
@@ -991,7 +996,7 @@ func c25Run(c *core.Ctx, raw json.RawMessage) {
 			}
 		}
 	}
-	for _, l := range [][]finding{first, orderF, laterF, orderZero} {
+	for _, l := range [][]finding{first, orderF, gapF, laterF, orderZero} {
 		if len(l) > 0 {
 			c.Violate(l[0].class, "%s", l[0].detail)
 			return
@@ -999,9 +1004,9 @@ func c25Run(c *core.Ctx, raw json.RawMessage) {
 	}
 }
 
-// subseqEnd reports whether the identities of want appear in order within got
+// c25SubseqEnd reports whether the identities of want appear in order within got
 // and, if so, the position in got just after the last match.
-func subseqEnd(want, got []xEvent) (int, bool) {
+func c25SubseqEnd(want, got []cdcXEvent) (int, bool) {
 	j := 0
 	for i, g := range got {
 		if j < len(want) && want[j].ident() == g.ident() {
@@ -1023,7 +1028,7 @@ func c25Nodes(m map[string]bool) string {
 	return strings.Join(p, ",")
 }
 
-func c25MsgSummary(ms []dMsg) string {
+func c25MsgSummary(ms []cdcDMsg) string {
 	var p []string
 	for _, m := range ms {
 		p = append(p, fmt.Sprintf("%d(%d ev)", m.Index, len(m.Events)))
